@@ -9,7 +9,7 @@ SHRINK_KEYS = ["ops"]
 RULE = ("random histories (1-20 operations quick, 1-50 thorough) of public mutations of a real ConstrainedQuadraticModel: "
         "add/remove/fix/flip/retype/relabel variables, set the objective (model or term iterable), add constraints (model copied or "
         "moved, comparison, term iterable, discrete from iterable/model), soft weights, remove/relabel constraints, bounds, deep "
-        "copies and inplace=False variants, edits through objective/constraint views; <= 6 variables of mixed vartypes present in "
+        "copies and inplace=False variants, edits through objective/constraint views, substitute_self_loops (self-loops on INTEGER variables are planted in the objective or a constraint beforehand three times out of four; the mapping the call returns is handed to the specification, which decides which variables must be in it), clear(), from_discrete_quadratic_model (a new model from a random 1-3 variable DQM; the history continues on it); <= 6 variables of mixed vartypes present in "
         "random subsets of the expressions, <= 4 constraints, a few per cent malformed arguments; the generator drives a real model "
         "so that most operations are valid for the state they meet; a case is non-trivial when it has >= 2 operations of >= 2 kinds; "
         "distinct by canonical JSON of the case")
@@ -20,7 +20,8 @@ TRUSTED = ["model: coq/theories/Model/CQMSpec.v (plain list of polynomials), Exp
 ASSUMPTIONS = ["the base quadratic model of an expression (abc.h adjacency) is abstracted to a list of linear biases and a bag of "
                "interactions over local indices (Adj.v is the detailed mirror)",
                "IEEE-754 arithmetic is exact on the small dyadic coefficients generated"]
-PARTIAL = ["variable order and the ordered interaction list are theorem-level at index level for every history "
+PARTIAL = ["substitute_self_loops, clear and from_discrete_quadratic_model are modelled at the S level only (CQMSpec.step: SubstSelfLoops carries the mapping the call returned, the specification decides which variables must be in it; theorems C05_substitute_self_loops_*, C05_clear_is_empty, C05_from_dqm_shape); they have no index-level (M) counterpart, so the refinement theorems C05_cqm_refines_spec* do not range over them - they are Python-level compositions of operations that do (add_variable, view add_quadratic / remove_interaction, add_constraint, set_objective); a REAL self-loop (accepted by the term iterables) makes substitute_self_loops raise after adding the new variable - reported finding, kept out of the random stream (feature subst_self_loops_real)",
+           "variable order and the ordered interaction list are theorem-level at index level for every history "
            "(C05_cqm_refines_spec_exact); for the labelled model they are stated through the index-level history of resolved "
            "operations it always is (C05_cqm_refines_spec_labels_exact), not against a native order list over labels; the order of "
            "the LINEAR terms inside a specification polynomial (a bag) has no counterpart - the variable order list replaces it",
